@@ -71,9 +71,18 @@ def run_trees(chk, hb, sb, trees, catalogue, workdir):
                 f.write(toml(lambda c: catalogue[c]))
             with open(os.path.join(base, "rev.toml"), "w") as f:
                 f.write(toml(lambda c: list(reversed(catalogue[c]))))
+            # a name listed twice, the two occurrences adjacent / apart: the same configured BAG in another order
+            def twice(c, adjacent):
+                ns = list(catalogue[c])
+                return ([ns[0], ns[0]] + ns[1:]) if adjacent else ([ns[0]] + ns[1:] + [ns[0]])
+            with open(os.path.join(base, "dup1.toml"), "w") as f:
+                f.write(toml(lambda c: twice(c, True)))
+            with open(os.path.join(base, "dup2.toml"), "w") as f:
+                f.write(toml(lambda c: twice(c, False)))
             runs = [("listing-order", ["--path", a]), ("listing-order", ["--path", b]),
                     ("configured-pattern-order", ["--path", a, "--toml", os.path.join(base, "fwd.toml")]),
                     ("configured-pattern-order", ["--path", a, "--toml", os.path.join(base, "rev.toml")])]
+            dup_runs = [["--path", a, "--toml", os.path.join(base, "dup1.toml")], ["--path", a, "--toml", os.path.join(base, "dup2.toml")]]
             blobs, ok = [], True
             for ri, (what, args) in enumerate(runs):
                 cwd = os.path.join(base, "cwd%d" % ri)
@@ -86,6 +95,16 @@ def run_trees(chk, hb, sb, trees, catalogue, workdir):
             for ri in range(1, 4):
                 if blobs[ri] != blobs[0] and not differs:
                     differs = runs[ri][0]
+            dblobs = []
+            for di, args in enumerate(dup_runs):
+                cwd = os.path.join(base, "dcwd%d" % di)
+                os.makedirs(cwd)
+                code, _err = bindrive.run_solstat(sb, cwd, args)
+                ok = ok and code == 0
+                rp = os.path.join(cwd, "solstat_report.md")
+                dblobs.append(open(rp, "rb").read() if os.path.exists(rp) else None)
+            if dblobs[0] != dblobs[1] and not differs:
+                differs = "order-of-a-repeated-pattern-name"
             if blobs[0] is not None:
                 with open(os.path.join(reports, "w%05d.md" % ti), "wb") as f:
                     f.write(blobs[0])
